@@ -186,6 +186,10 @@ def strategy(tier):
     return _spec()
 
 
+def warmup():
+    import porepy  # noqa: F401  (numba kernels compile at import; keep that outside the time budget)
+
+
 # ----------------------------------------------------------------------------- helpers (independent of porepy)
 def _quat_matrix(q):
     """Rotation matrix of the (integer) quaternion q = (a, b, c, d); identity for q = 0."""
